@@ -637,7 +637,6 @@ macro_rules! relation_to_query_translator_trait_constructor {
                 FromUnixtime,
                 DateFormat,
                 Choose,
-                IsBool,
                 RegexpExtract,
                 RegexpReplace,
                 DatetimeDiff,
@@ -734,6 +733,15 @@ macro_rules! relation_to_query_translator_trait_constructor {
                     substring_from: Some(Box::new(exprs[1].clone())),
                     substring_for: Some(Box::new(exprs[2].clone())),
                     special: false,
+                }
+            }
+            fn is_bool(&self, exprs: Vec<ast::Expr>) -> ast::Expr {
+                assert!(exprs.len() == 2);
+                let expr = Box::new(ast::Expr::Nested(Box::new(exprs[0].clone())));
+                match exprs[1] {
+                    ast::Expr::Value(ast::Value::Boolean(true)) => ast::Expr::IsTrue(expr),
+                    ast::Expr::Value(ast::Value::Boolean(false)) => ast::Expr::IsFalse(expr),
+                    _ => function_builder("IS_BOOL", exprs, false),
                 }
             }
             fn is_null(&self, expr: ast::Expr) -> ast::Expr {
